@@ -46,6 +46,17 @@ var optSets = []lib.VOpts{
 // (Q, digest, r, s) with r,s arbitrary non-negative integers; vs = recovery ids to try.
 func runCase(q ref.Pt, digest []byte, r, s *big.Int, vs []int, dHex string) string {
 	pk := lib.MkPub(q)
+	// object history before verifying: a Schnorr key is derived from the key, and the caller mutates the
+	// point the key handed out
+	_ = bitcoin.NewSchnorrPublicKeyFromECDSA(pk)
+	hp := pk.Point()
+	hp.Negate(hp)
+	if dHex != "" {
+		dd, _ := new(big.Int).SetString(dHex, 16)
+		sk := lib.MkPriv(dd)
+		_ = bitcoin.NewSchnorrPrivateKeyFromECDSA(sk)
+		pk = sk.PublicKey()
+	}
 	dgIn := append([]byte{}, digest...)
 	want := ref.ECDSAVerify(q, digest, r, s)
 	inRange := r.Cmp(ref.N) < 0 && s.Cmp(ref.N) < 0
